@@ -123,8 +123,8 @@ CHECKS = {
         "trace_module": "Trace_FilterSync",
         "mc": [MC_FILTERSYNC],
         "drivers": [{"name": "concurrent", "driver": "concurrent", "args": [], "trace_module": "Trace_FilterSync",
-                     "n": {"quick": 10, "thorough": 60}, "procs": {"quick": 6, "thorough": 14},
-                     "tier_args": {"quick": ["pairs=3", "maxk=4"], "thorough": ["pairs=6", "maxk=12"]}, "timeout": 3000}],
+                     "n": {"quick": 12, "thorough": 60}, "procs": {"quick": 6, "thorough": 14},
+                     "tier_args": {"quick": ["pairs=4", "maxk=4"], "thorough": ["pairs=6", "maxk=12"]}, "timeout": 3000}],
         "assumptions": FS_ASSUMPTIONS + [
             "the operations are set_scripts (RPC), a BlockFilters batch, the arrival of a matched block, a last-state proof that switches to a heavier fork, and get_cells_capacity as the reader; each runs on its own OS thread against the same store and Peers object, as the handlers of the real node do",
             "the first operation is suspended by the storage hook right before its k-th write (the reader: at its read points after the snapshot is taken), the second is started then; if it does not finish within 300 ms it is taken to be blocked and the first is released",
@@ -199,7 +199,7 @@ CHECKS = {
     "C12": {
         "trace_module": "Trace_PeerSync",
         "mc": [MC_PEERSYNC, MC_PEERSYNC_SHORT],
-        "drivers": [peersync("tip", 120, 800, 2, 8), peersync("tipeq", 60, 400, 1, 4), peersync("honest", 30, 200, 2, 4)],
+        "drivers": [peersync("tip", 120, 800, 2, 8), peersync("tipeq", 60, 400, 1, 4), peersync("honest", 30, 200, 2, 4), peersync("adv", 150, 1000, 1, 3)],
         "assumptions": COMMON_ASSUMPTIONS,
     },
 }
